@@ -8,13 +8,13 @@ use rand::{RngCore, SeedableRng};
 const SPEC: Spec = Spec {
     id: "C18",
     engine: "E-hist over RNG streams (depth-first enumeration of every RNG word stream over a 5-letter word alphabet up to a length bound, pruned exactly where the call consumed no further word; the real generators run on an explicit-stream RngCore; result and words consumed compared with the specification model)",
-    rule: "states = (API call, arguments, stream prefix) nodes of the decision tree driven by the RNG; for every node the real call runs on the stream prefix followed by zeros; the result must equal the property's own model (gen_biguint(n) = first ceil(n/32) words as little-endian base-2^32 digits with the top word shifted down; bounded sampling = first candidate below the bound; ranges by translation; gen_bigint = magnitude then one sign word, redraw on zero+true), the number of words consumed must equal the model's, results must be in range and canonical; uniformity by exhaustive preimage counting for widths <= 12 bits; non-trivial = the call consumed >= 2 words or retried",
+    rule: "states = (API call, arguments, stream prefix) nodes of the decision tree driven by the RNG; for every node the real call runs on the stream prefix followed by zeros, once behind a 32-bit-word RngCore and once behind a 64-bit-native RngCore (whole units per next_u32 / fill request); the result must equal the property's own model (gen_biguint(n) = first ceil(n/32) words as little-endian base-2^32 digits with the top word shifted down; bounded sampling = first candidate below the bound; ranges by translation; gen_bigint = magnitude then one sign word, redraw on zero+true), the number of words consumed must equal the model's, results must be in range and canonical; uniformity by exhaustive preimage counting for widths <= 12 bits; non-trivial = the call consumed >= 2 words or retried",
     assumptions: &[
         "streams: every word sequence over {0,1,2^31,2^32-1,0x5555aaaa} up to the length bound, then zeros (so rejection loops terminate; the horizon is explicit)",
         "the RNG is consumed through RngCore::{next_u32,next_u64,fill_bytes} with little-endian word order, as rand's block RNGs do; tied to a real generator by replaying the ChaCha value-stability vectors of ci/big_rand",
         "uniformity is decided as exact counting (every candidate of the width is presented once per filler pattern), not as a statistical statement",
     ],
-    bounds_quick: "stream length <= 8 words; gen_biguint/gen_bigint/RandomBits for every n in 0..=130; below/range/Uniform over 10 bounds x 3 offsets and 14 signed ranges; uniformity for widths <= 11; panic clauses; ChaCha vectors",
+    bounds_quick: "stream length <= 8 words (32-bit-word generator) / <= 6 words (64-bit-native generator: whole 64-bit units per request); gen_biguint/gen_bigint/RandomBits for every n in 0..=130; below/range/Uniform over 10 bounds x 3 offsets and 14 signed ranges; uniformity for widths <= 11; panic clauses; ChaCha vectors",
     bounds_thorough: "stream length <= 10 words; n in 0..=260; uniformity for widths <= 13",
     hang_secs: 120,
     probes: None,
@@ -24,6 +24,20 @@ const SPEC: Spec = Spec {
 const WORDS: [u32; 5] = [0, 1, 1 << 31, u32::MAX, 0x5555_aaaa];
 
 /// RngCore over an explicit word list followed by zeros; counts the words consumed.
+/// RNG kind: false = 32-bit-word generator (fill_bytes and next_u32 draw from one word stream);
+/// true = 64-bit-native generator (StepRng / Xoshiro / Pcg64 style): every next_u32, next_u64 and
+/// fill_bytes call consumes whole 64-bit units, the unused half of the last unit is discarded.
+static UNIT64: std::sync::atomic::AtomicBool = std::sync::atomic::AtomicBool::new(false);
+fn unit64() -> bool {
+    UNIT64.load(std::sync::atomic::Ordering::Relaxed)
+}
+fn kind() -> &'static str {
+    if unit64() {
+        " rng=64bit-native"
+    } else {
+        ""
+    }
+}
 struct StreamRng<'a> {
     words: &'a [u32],
     pos: usize,
@@ -37,7 +51,11 @@ impl<'a> StreamRng<'a> {
 }
 impl<'a> RngCore for StreamRng<'a> {
     fn next_u32(&mut self) -> u32 {
-        self.word()
+        let w = self.word();
+        if unit64() {
+            self.pos += 1;
+        }
+        w
     }
     fn next_u64(&mut self) -> u64 {
         let lo = self.word() as u64;
@@ -48,6 +66,9 @@ impl<'a> RngCore for StreamRng<'a> {
         for chunk in dest.chunks_mut(4) {
             let w = self.word().to_le_bytes();
             chunk.copy_from_slice(&w[..chunk.len()]);
+        }
+        if unit64() && self.pos % 2 == 1 {
+            self.pos += 1;
         }
     }
     fn try_fill_bytes(&mut self, dest: &mut [u8]) -> Result<(), rand::Error> {
@@ -75,6 +96,10 @@ impl<'a> M<'a> {
         if rem > 0 {
             d[len - 1] >>= 32 - rem;
         }
+        // one fill request per candidate: a 64-bit-native generator drops the unused half unit
+        if unit64() && self.pos % 2 == 1 {
+            self.pos += 1;
+        }
         Nat::from_u32_digits(&d)
     }
     fn below(&mut self, b: &Nat) -> Nat {
@@ -91,6 +116,9 @@ impl<'a> M<'a> {
         loop {
             let m = self.biguint(n);
             let s = (self.word() as i32) < 0; // rand 0.8: bool = sign bit of next_u32
+            if unit64() {
+                self.pos += 1;
+            }
             if m.is_zero() {
                 if s {
                     self.retries += 1;
@@ -188,13 +216,13 @@ fn run_node(ctx: &mut Ctx, api: &Api, words: &[u32]) -> usize {
                     let mut r2 = StreamRng { words, pos: 0 };
                     let again: Result<BigInt, String> = guard(|| RandomBits::new(*n).sample(&mut r2));
                     if again.as_ref().map(int_of) != Ok(g.clone()) {
-                        ctx.viol(format!("RandomBits!=gen_bigint {:?} stream={:x?}", api, words), "RandomBits does not match gen_bigint on the same stream", args(), g.to_hex(), format!("{:?}", again.map(|x| int_of(&x).to_hex())));
+                        ctx.viol(format!("RandomBits!=gen_bigint {:?} stream={:x?}{}", api, words, kind()), "RandomBits does not match gen_bigint on the same stream", args(), g.to_hex(), format!("{:?}", again.map(|x| int_of(&x).to_hex())));
                     }
                 }
             } else if g != want {
-                ctx.viol(format!("{:?} stream={:x?}", api, words), "result is not the specified function of the RNG stream", args(), want.to_hex(), g.to_hex());
+                ctx.viol(format!("{:?} stream={:x?}{}", api, words, kind()), "result is not the specified function of the RNG stream", args(), want.to_hex(), g.to_hex());
             } else if consumed != m.pos {
-                ctx.viol(format!("words-consumed {:?} stream={:x?}", api, words), "number of RNG words consumed differs from the specification", args(), format!("{}", m.pos), format!("{}", consumed));
+                ctx.viol(format!("words-consumed {:?} stream={:x?}{}", api, words, kind()), "number of RNG words consumed differs from the specification", args(), format!("{}", m.pos), format!("{}", consumed));
             }
             // range clause, independent of the model value
             let in_range = match api {
@@ -207,10 +235,10 @@ fn run_node(ctx: &mut Ctx, api: &Api, words: &[u32]) -> usize {
                 Api::UniformI(l, u, incl) => l.cmp(&g) != std::cmp::Ordering::Greater && (g.cmp(u) == std::cmp::Ordering::Less || (*incl && g == *u)),
             };
             if !in_range {
-                ctx.viol(format!("out-of-range {:?} stream={:x?}", api, words), "result outside the requested bounds", args(), "in range".into(), g.to_hex());
+                ctx.viol(format!("out-of-range {:?} stream={:x?}{}", api, words, kind()), "result outside the requested bounds", args(), "in range".into(), g.to_hex());
             }
         }
-        Out::Panic(p) => ctx.viol(format!("{:?} stream={:x?}", api, words), "generator panicked", args(), want.to_hex(), p),
+        Out::Panic(p) => ctx.viol(format!("{:?} stream={:x?}{}", api, words, kind()), "generator panicked", args(), want.to_hex(), p),
     }
     consumed.max(m.pos)
 }
@@ -278,8 +306,11 @@ fn body(ctx: &mut Ctx) {
                 // the RandomBits forms are the same code path: explore them to a smaller depth
                 let ml = if matches!(api, Api::RandomBitsU(_) | Api::RandomBitsI(_)) { maxlen.min(4) } else { maxlen };
                 explore(ctx, &api, &mut Vec::new(), ml);
+                UNIT64.store(true, std::sync::atomic::Ordering::Relaxed);
+                explore(ctx, &api, &mut Vec::new(), ml.min(6));
+                UNIT64.store(false, std::sync::atomic::Ordering::Relaxed);
                 if n == 33 {
-                    ctx.sample(|| format!("{:?}: every stream over {:x?} up to {} words (pruned where no further word is read)", api, WORDS, ml));
+                    ctx.sample(|| format!("{:?}: every stream over {:x?} up to {} words (pruned where no further word is read), as a 32-bit-word and (up to 6 words) as a 64-bit-native generator", api, WORDS, ml));
                 }
             }
         }
@@ -329,7 +360,10 @@ fn body(ctx: &mut Ctx) {
                 continue;
             }
             explore(ctx, api, &mut Vec::new(), maxlen);
-            ctx.sample(|| format!("{:?}: every stream up to {} words", api, maxlen));
+            UNIT64.store(true, std::sync::atomic::Ordering::Relaxed);
+            explore(ctx, api, &mut Vec::new(), maxlen.min(6));
+            UNIT64.store(false, std::sync::atomic::Ordering::Relaxed);
+            ctx.sample(|| format!("{:?}: every stream up to {} words (32-bit-word generator) and up to 6 words (64-bit-native generator)", api, maxlen));
         }
     }
     // ---- U: uniformity by exhaustive preimage counting
